@@ -12,10 +12,12 @@
 //!          APPROXIMATE part (judged by the oracle in lib/fam_diag.py):
 //!            [bits64(entropy)] ++ per vector, for each bit set in mask (1 = cross entropy,
 //!            2 = reverse cross entropy, 4 = KL, 8 = reverse KL) the f64 bit pattern.
-//! inst: 0 = (u32, 24)  1 = (u16, 12)  2 = (u8, 8)  3 = (u32, 32)  4 = (u16, 16)  5 = (u8, 1)
+//! inst = type instance + 100 * kind; kind 0 contiguous model, 1 its to_generic_decoder_model(),
+//!   2 its as_view(), 3 UniformModel::new(n) (the table must be the uniform one, else [-2])
+//! type instance: 0 = (u32, 24)  1 = (u16, 12)  2 = (u8, 8)  3 = (u32, 32)  4 = (u16, 16)  5 = (u8, 1)
 use crate::common::*;
 use constriction::stream::model::{
-    ContiguousCategoricalEntropyModel, EncoderModel, IterableEntropyModel,
+    ContiguousCategoricalEntropyModel, EncoderModel, IterableEntropyModel, UniformModel,
 };
 
 /// NaN payloads are not specified; every NaN is reported as the canonical quiet NaN.
@@ -39,12 +41,12 @@ macro_rules! f32_view {
 
 macro_rules! diag_impl {
     ($name:ident, $prob:ty, $p:expr, $f32:tt) => {
-        fn $name(qs: &[Int], vecs: &[(Int, Vec<f64>)], out: &mut Vec<Int>) {
+        fn $name(kind: Int, qs: &[Int], vecs: &[(Int, Vec<f64>)], out: &mut Vec<Int>) {
             let probs: Vec<$prob> = qs
                 .iter()
                 .map(|&q| <$prob>::try_from(q).expect("probability does not fit the Probability type"))
                 .collect();
-            let model = match ContiguousCategoricalEntropyModel::<$prob, Vec<$prob>, $p>::
+            let base = match ContiguousCategoricalEntropyModel::<$prob, Vec<$prob>, $p>::
                 from_nonzero_fixed_point_probabilities(&probs, false)
             {
                 Ok(m) => m,
@@ -53,30 +55,60 @@ macro_rules! diag_impl {
                     return;
                 }
             };
-            let tbl: Vec<(usize, f64, f64)> = model.floating_point_symbol_table::<f64>().collect();
-            out.push(tbl.len() as Int);
-            for (s, c, q) in tbl {
-                out.push(s as Int);
-                out.push(c.to_bits() as Int);
-                out.push(q.to_bits() as Int);
+            // the three single-symbol views come from the encoder side of the contiguous model
+            let fpp: Vec<Int> = [0usize, probs.len() - 1, probs.len()]
+                .iter()
+                .map(|&s| base.floating_point_probability::<f64>(s).to_bits() as Int)
+                .collect();
+
+            fn emit<'m, M>(model: &'m M, fpp: &[Int], vecs: &[(Int, Vec<f64>)], out: &mut Vec<Int>)
+            where
+                M: IterableEntropyModel<'m, $p, Symbol = usize, Probability = $prob>,
+            {
+                let tbl: Vec<(usize, f64, f64)> = model.floating_point_symbol_table::<f64>().collect();
+                out.push(tbl.len() as Int);
+                for (s, c, q) in tbl {
+                    out.push(s as Int);
+                    out.push(c.to_bits() as Int);
+                    out.push(q.to_bits() as Int);
+                }
+                f32_view!($f32, model, out);
+                out.extend(fpp.iter().cloned());
+                out.push(bits(model.entropy_base2::<f64>()));
+                for (mask, p) in vecs {
+                    if mask & 1 != 0 {
+                        out.push(bits(model.cross_entropy_base2::<f64>(p.iter().cloned())));
+                    }
+                    if mask & 2 != 0 {
+                        out.push(bits(model.reverse_cross_entropy_base2::<f64>(p.iter().cloned())));
+                    }
+                    if mask & 4 != 0 {
+                        out.push(bits(model.kl_divergence_base2::<f64>(p.iter().cloned())));
+                    }
+                    if mask & 8 != 0 {
+                        out.push(bits(model.reverse_kl_divergence_base2::<f64>(p.iter().cloned())));
+                    }
+                }
             }
-            f32_view!($f32, model, out);
-            for s in [0usize, probs.len() - 1, probs.len()] {
-                out.push(model.floating_point_probability::<f64>(s).to_bits() as Int);
-            }
-            out.push(bits(model.entropy_base2::<f64>()));
-            for (mask, p) in vecs {
-                if mask & 1 != 0 {
-                    out.push(bits(model.cross_entropy_base2::<f64>(p.iter().cloned())));
-                }
-                if mask & 2 != 0 {
-                    out.push(bits(model.reverse_cross_entropy_base2::<f64>(p.iter().cloned())));
-                }
-                if mask & 4 != 0 {
-                    out.push(bits(model.kl_divergence_base2::<f64>(p.iter().cloned())));
-                }
-                if mask & 8 != 0 {
-                    out.push(bits(model.reverse_kl_divergence_base2::<f64>(p.iter().cloned())));
+
+            // kind: which representation of the SAME table the diagnostics are asked of (every
+            // model type may override the trait's default methods)
+            match kind {
+                0 => emit(&base, &fpp, vecs, out),
+                1 => emit(&base.to_generic_decoder_model(), &fpp, vecs, out),
+                2 => emit(&base.as_view(), &fpp, vecs, out),
+                _ => {
+                    // UniformModel over `n` symbols: the case's table must be the uniform one
+                    let u = UniformModel::<$prob, $p>::new(probs.len());
+                    let same = u
+                        .symbol_table()
+                        .map(|(_, _, q)| q.get())
+                        .eq(probs.iter().cloned());
+                    if !same {
+                        out.push(-2);
+                        return;
+                    }
+                    emit(&u, &fpp, vecs, out)
                 }
             }
         }
@@ -91,7 +123,8 @@ diag_impl!(diag_u16_16, u16, 16, yes);
 diag_impl!(diag_u8_1, u8, 1, yes);
 
 pub fn run(r: &mut Reader, out: &mut Vec<Int>) {
-    let inst = r.next();
+    let inst_kind = r.next();
+    let (inst, kind) = (inst_kind % 100, inst_kind / 100);
     let qs = r.list();
     let nvec = r.us();
     let mut vecs = Vec::with_capacity(nvec);
@@ -101,11 +134,11 @@ pub fn run(r: &mut Reader, out: &mut Vec<Int>) {
         vecs.push((mask, p));
     }
     match inst {
-        0 => diag_u32_24(&qs, &vecs, out),
-        1 => diag_u16_12(&qs, &vecs, out),
-        2 => diag_u8_8(&qs, &vecs, out),
-        3 => diag_u32_32(&qs, &vecs, out),
-        4 => diag_u16_16(&qs, &vecs, out),
-        _ => diag_u8_1(&qs, &vecs, out),
+        0 => diag_u32_24(kind, &qs, &vecs, out),
+        1 => diag_u16_12(kind, &qs, &vecs, out),
+        2 => diag_u8_8(kind, &qs, &vecs, out),
+        3 => diag_u32_32(kind, &qs, &vecs, out),
+        4 => diag_u16_16(kind, &qs, &vecs, out),
+        _ => diag_u8_1(kind, &qs, &vecs, out),
     }
 }
